@@ -631,6 +631,7 @@ func c06Job(shard, nshards, maxPools, maxBusy int) Job {
 var c06BaseCfg = "[" + poolJSON([]string{"10.0.0.0/16"}, []string{"10.99.0.1"}, "10.99.0.0/24", "10.99.0.254", 0) + "]"
 
 var c06FromBase bool
+var c06ReleasedAfterFault bool
 
 func c06Case(r *caseResult, scen string, ci int, cfg world.Config, ips, busy []string, pd c06Pod) {
 	c06CaseR(r, scen, ci, cfg, ips, busy, pd, false)
@@ -639,6 +640,13 @@ func c06Case(r *caseResult, scen string, ci int, cfg world.Config, ips, busy []s
 		c06FromBase = true
 		c06CaseR(r, scen, ci, cfg, ips, busy, pd, false)
 		c06FromBase = false
+	}
+	if len(busy) == 1 && pd.Holder == "" && pd.Reserve == "" && pd.Reserve2 == "" {
+		// the same case with the busy address given back meanwhile: the first release met a failing store call, the retry
+		// succeeded (what Filter counts as free must be what Bind can take)
+		c06ReleasedAfterFault = true
+		c06CaseR(r, scen, ci, cfg, ips, busy, pd, false)
+		c06ReleasedAfterFault = false
 	}
 	if (len(busy) > 0 || pd.Holder != "" || pd.Reserve != "") && pd.Reserve2 == "" {
 		// the same case after a restart of galaxy-ipam (tables rebuilt from the store)
@@ -658,6 +666,11 @@ func c06CaseR(r *caseResult, scen string, ci int, cfg world.Config, ips, busy []
 	defer func() { vmap.Rotation = 0 }()
 	desc := fmt.Sprintf("config#%d %s busy=%v pod=%s restart=%v", ci, cfg.Pools, busy, pd.Name, restart)
 	class := strings.SplitN(pd.Name, ":", 2)[0]
+	released := c06ReleasedAfterFault
+	if released {
+		desc += " (the busy address released again: first attempt with a failing store call, then the retry)"
+		isBusy = map[string]bool{}
+	}
 	fromBase := c06FromBase
 	if fromBase {
 		desc += " (loaded at run time over a configuration with one coarse node subnet)"
@@ -692,6 +705,14 @@ func c06CaseR(r *caseResult, scen string, ci int, cfg world.Config, ips, busy []
 		for _, b := range busy {
 			_ = preAllocate(w, b, "sts_ns_other_other-0", "uo")
 		}
+		if released {
+			for _, b := range busy {
+				w.ResetFault(1)
+				_ = w.Plugin.GetIpam().Release("sts_ns_other_other-0", net.ParseIP(b))
+				w.ResetFault(0)
+				_ = w.Plugin.GetIpam().Release("sts_ns_other_other-0", net.ParseIP(b))
+			}
+		}
 		k := keyOfSpec(pd.Spec)
 		if pd.Holder != "" {
 			_ = w.Plugin.GetIpam().AllocateSpecificIP(k.KeyInDB, net.ParseIP(pd.Holder), floatingip.Attr{Policy: 1, Uid: string(p.UID)})
@@ -713,7 +734,7 @@ func c06CaseR(r *caseResult, scen string, ci int, cfg world.Config, ips, busy []
 	offered, ferr := w.Filter(pd.Spec.Key())
 	r.evals++
 	sort.Strings(offered)
-	r.distinct[hashOf(ci, busy, pd.Name, restart, fromBase, offered, ferr != nil)] = true
+	r.distinct[hashOf(ci, busy, pd.Name, restart, fromBase, released, offered, ferr != nil)] = true
 	if len(r.samples) < 3 && r.evals%311 == 1 {
 		r.samples = append(r.samples, fmt.Sprintf("%s -> offered %v err=%v", desc, offered, ferr))
 	}
